@@ -26,9 +26,11 @@ def groups():
         'slist.b.basic': (1, 'h_b_basic', ['C13'], 16,
                           'push_front, push_back, pop_front until empty (+ refill of the emptied list), insert_after at every position, '
                           'erase_after at every position (the last node: tail moves) followed by push_back, reverse (twice) followed by push_back / pop_front'),
-        'slist.b.pair': (2, 'h_b_pair', ['C13'], 16,
-                         'concat and swap over all pairs of lengths 0..5 x 0..3: destination = a then b, source empty and usable, push_back after concat; '
-                         'swap, push_back into both, swap back, pop_front'),
+        'slist.b.concat': (2, 'h_b_pair', ['C13'], 16,
+                           'concat over all pairs of lengths 0..5 x 0..3: destination = a then b, source empty and usable (push_back), push_back after concat'),
+        'slist.b.swap': (2, 'h_b_pair', ['C13'], 16,
+                         'swap over all pairs of lengths 0..5 x 0..3: contents exchanged (an empty side gets its own sentinel as tail), '
+                         'push_back into both, swap back, pop_front'),
         'slist.b.visit': (5, 'h_b_visit', ['C13', 'C15'], 16,
                           'clear with a poisoning callback (exactly once per element, list elements only, no element touched after its callback, '
                           'list equals a freshly initialised one, refill, second clear hands over nothing); foreach with every stop position '
@@ -42,7 +44,8 @@ def groups():
         # pop_empty: on a fully concrete run cbmc 6.11 leaves the (constant-folded) pointer checks that follow a failed
         # NULL dereference in the status UNKNOWN, which the runner counts as "no verdict"; the fault-localisation
         # verifier settles every status (same FAILURE set), so that the group gets the verdict `fail` with a replay.
-        G.append(Group(gid, props, 'B', S, h, sources=src, defines=['-DVF_B=%d' % k] + (['-DVF_SORTLEN=3'] if k == 3 else []), unwind=unw,
+        G.append(Group(gid, props, 'B', S, h, sources=src, defines=['-DVF_B=%d' % k] + (['-DVF_SORTLEN=3'] if k == 3 else []) +
+                       ({'slist.b.concat': ['-DVF_PAIR_OP=1'], 'slist.b.swap': ['-DVF_PAIR_OP=2']}.get(gid, [])), unwind=unw,
                        cbmc=['--localize-faults'] if k == 4 else [],
                        what=common + txt,
                        scope='lists of length 0..5 (second list 0..3; sort: 0..3, keys from {0,1,2}; pop_empty: 0..2); element pointers concrete',
